@@ -156,6 +156,28 @@ Theorem C18_oracle_accessible_on_model :
 Proof. exact oracle_ok_accessible. Qed.
 Print Assumptions C18_oracle_accessible_on_model.
 
+(* 9. Several initialisations in one process (fresh objects, any resource
+   managers, configurations, SMT values; the user may set, unset or keep
+   $RADICAL_SMT before each): an initialisation reads its configuration and the
+   environment as given and leaves the environment as it was, so every
+   result is the result of that initialisation alone ... *)
+Theorem C18_initialisations_independent :
+  forall l pe,
+    run_seq pe l =
+    map (fun ps => rm_construct (with_smt_env (fst ps) (st_cfg (snd ps))) (st_env (snd ps)) (st_acc (snd ps)))
+        (combine (given_envs pe l) (map snd l)).
+Proof. exact seq_independent. Qed.
+Print Assumptions C18_initialisations_independent.
+
+(* ... and does not depend on what was initialised before it in the process *)
+Theorem C18_earlier_initialisations_irrelevant :
+  forall l1 l2 pe1 pe2 u s,
+    apply_user u (last (given_envs pe1 l1) pe1) = apply_user u (last (given_envs pe2 l2) pe2) ->
+    nth (List.length l1) (run_seq pe1 (l1 ++ [(u, s)])) (inl OtherError) =
+    nth (List.length l2) (run_seq pe2 (l2 ++ [(u, s)])) (inl OtherError).
+Proof. exact seq_prefix_irrelevant. Qed.
+Print Assumptions C18_earlier_initialisations_irrelevant.
+
 (* The boolean clauses the harness evaluates on the implementation's RMInfo
    are true of everything the model returns ... *)
 Theorem C18_oracle_holds_on_model :
@@ -211,4 +233,16 @@ Example C18_nonvacuous_repeated_names :
              = (["localhost"; "localhost"]%string, [0], [2])
   | inl _ => False
   end.
+Proof. vm_compute. reflexivity. Qed.
+
+(* non-vacuity of 9: LSF with SMT 1 after an LSF initialisation with SMT 4
+   (both from the resource config, $RADICAL_SMT never set): 2 core slots per
+   node, not 8 *)
+Example C18_nonvacuous_sequence :
+  let nf := NFLines ["h1"; "h1"; "h2"; "h2"]%string in
+  let c4 := mkCfg 2 16 0 0 0 0 0 0 1 None (Some 4) [] [] [] false false in
+  let c1 := mkCfg 2 4 0 0 0 0 0 0 1 None (Some 1) [] [] [] false false in
+  map (fun r => match r with inr i => map (fun n => zlen (n_cores n)) (r_nodes i) | inl _ => [] end)
+      (run_seq None [(Keep, mkStep c4 (ELSF nf) []); (Keep, mkStep c1 (ELSF nf) [])])
+  = [[8; 8]; [2; 2]].
 Proof. vm_compute. reflexivity. Qed.
